@@ -968,7 +968,7 @@ fn enumerate_faults(sc: &Value, census: &Sub, tier: &str) -> Vec<Value> {
                 // device stays broken) - loops that retry forever show up as hangs
                 if let Some(e) = es.first() {
                     let first_of_kind = !evs[..idx].iter().any(|p| p.sys.nr == ev.sys.nr);
-                    if first_of_kind || tier != "quick" {
+                    if (first_of_kind || tier != "quick") && !sc["plan"]["no_persist"].as_bool().unwrap_or(false) {
                         out.push(f(Action::ErrnoPersist(*e)));
                     }
                 }
@@ -1421,6 +1421,16 @@ fn gen_c13(rng: &mut Rng, r: u64) -> Value {
     let mut post = Vec::new();
     for fl in PURE {
         post.push(json!({"k":"audit","bin":fl.0,"mode":fl.1,"what":["metadata","read","read_hash","exists","list"]}));
+    }
+    if rng.chance(1, 5) {
+        // the same process makes the same call again after the failed one ("succeeds once the fault is gone", with
+        // whatever the failed attempt left behind in the process: memoised state, buffers, open handles)
+        let mut again = v.clone();
+        if let Some(t) = again.get("to").and_then(|t| t.as_str()).map(|t| t.to_string()) {
+            again["to"] = json!(format!("{}-again", t));
+        }
+        return json!({"keys":keys,"vals":vals,"prelude":prelude,"clients":[{"bin":f.0,"steps":[v, again]}],"post":post,"retry":true,
+               "plan":{"kind":"enumerate","mode":"errno","victim_op":0,"no_persist":true,"schedule":victim_schedule(rng, f.1)},"oracle":"fault"});
     }
     json!({"keys":keys,"vals":vals,"prelude":prelude,"clients":[{"bin":f.0,"steps":[v]}],"post":post,"retry":true,
            "plan":{"kind":"enumerate","mode":"errno","schedule":victim_schedule(rng, f.1)},"oracle":"fault"})
